@@ -358,7 +358,30 @@ def classify_unchecked(L, m, pre, restore=None):
             if not np.isfinite(D).all():
                 ok, ev = _undamped_tendon_nan_derivative(L, m, pre0, pre, restore)
                 return "integrator-result-unchecked:implicit:nonfinite-qDeriv", ok, ev
-            return "implicit:nonfinite-solve", False, {}
+            # everything the documented checks look at is fine (state, controls and the forward qacc pass the bad-value predicate,
+            # qDeriv is finite) and yet the implicit velocity update returns non-finite values: the result of the integration stage
+            # is never checked (the checks sit at the start of the step). Confirmed when the same step with the Euler integrator from
+            # the same state stays finite, i.e. the overflow is produced inside the implicit update (M - h*qDeriv solve) itself.
+            ev = {"qDeriv_finite": True, "forward_qacc_passes_the_predicate": True, "euler_twin_finite": _euler_twin_finite(L, m, pre0)}
+            # root-cause confirmation (independent of where inside the update the overflow happens): the very next mj_step from the
+            # returned state raises the position/velocity warning and resets - i.e. the bad values were produced by this step's
+            # integration stage and only the START-of-step checks ever look at them
+            Tw = pre0.copy()
+            try:
+                Tw.step(1)
+                w0 = Tw.sv("warning")["number"].copy()
+                bad_after_first = bool(_finite_state(Tw))
+                Tw.step(1)
+                w1 = Tw.sv("warning")["number"]
+                ev["nonfinite_after_this_step"] = bad_after_first
+                ev["next_step_raises_BADQPOS_or_BADQVEL"] = bool(int(w1[E.mjWARN_BADQPOS]) + int(w1[E.mjWARN_BADQVEL]) >= 1 and int(w0[E.mjWARN_BADQPOS]) + int(w0[E.mjWARN_BADQVEL]) == 0)
+                ev["state_finite_after_next_step"] = not bool(_finite_state(Tw))
+            except drv.MjError:
+                ev["next_step_raises_BADQPOS_or_BADQVEL"] = False
+            finally:
+                Tw.free()
+            ok = bool(ev.get("nonfinite_after_this_step") and ev.get("next_step_raises_BADQPOS_or_BADQVEL") and ev.get("state_finite_after_next_step"))
+            return "integrator-result-unchecked:implicit:nonfinite-solve", ok, ev
         return "Euler", False, {}
     except drv.MjError:
         return "unclassified(engine-error-in-diagnosis)", False, {}
